@@ -12,9 +12,9 @@ cleanup() { git -C /repo worktree remove --force "$WT" 2>/dev/null; rm -rf "$WT"
 trap cleanup EXIT
 cd "$WT"
 export CARGO_TARGET_DIR=/var/tmp/gpa-verif-cache/target-seedcheck
-run_tests() { cargo nextest run --workspace --no-fail-fast --tool-config-file pb:/w/lib/nextest.toml --profile pb --test-threads 8 --offline 2>&1 | grep -E "^\s+(PASS|FAIL)" | sed -E 's/\[[^]]*\]//; s/\([0-9]+\/[0-9]+\)//' | awk '{print $1, $NF}' | sort -u; }
+run_tests() { cargo test --workspace --no-fail-fast --offline 2>&1 | grep -E "^test .* \.\.\. (ok|FAILED)" | sed -E 's/^test (.*) \.\.\. ok.*/PASS \1/; s/^test (.*) \.\.\. FAILED.*/FAIL \1/' | sort -u; }
 run_tests > "$OUT/tests_before.txt"
-if ! git apply --3way "$PATCH" 2>"$OUT/apply.err" && ! git apply "$PATCH" 2>>"$OUT/apply.err"; then echo "PATCH-DOES-NOT-APPLY"; cat "$OUT/apply.err"; exit 4; fi
+if ! git apply "$PATCH" 2>"$OUT/apply.err" && ! { git apply --3way "$PATCH" 2>>"$OUT/apply.err" && git reset -q; }; then echo "PATCH-DOES-NOT-APPLY"; cat "$OUT/apply.err"; exit 4; fi
 git diff > "$OUT/applied.diff"
 if ! cargo build --workspace --offline 2>"$OUT/build.err" >/dev/null; then echo "DOES-NOT-COMPILE"; tail -20 "$OUT/build.err"; exit 5; fi
 run_tests > "$OUT/tests_after.txt"
@@ -25,7 +25,7 @@ if [ "$DEMO" != "-" ]; then
   git apply "$DEMO" 2>"$OUT/demo_apply.err" || { echo "DEMO-DOES-NOT-APPLY"; cat "$OUT/demo_apply.err"; }
   cargo test --offline --workspace "$FILTER" 2>&1 | grep -E "^test .* \.\.\. |test result" > "$OUT/demo_with_patch.txt"
   echo "demo WITH patch:"; grep -E "FAILED|ok$" "$OUT/demo_with_patch.txt" | head -5
-  git checkout -q -- . ; git apply "$DEMO" 2>/dev/null
+  git reset -q --hard HEAD; git clean -fdq; git apply "$DEMO" 2>/dev/null
   cargo test --offline --workspace "$FILTER" 2>&1 | grep -E "^test .* \.\.\. |test result" > "$OUT/demo_without_patch.txt"
   echo "demo WITHOUT patch:"; grep -E "FAILED|ok$" "$OUT/demo_without_patch.txt" | head -5
 fi
